@@ -129,8 +129,13 @@ static void mt_decode(const Plan &plan, const Bytes &file, SimAlloc &al, MtRun &
 	};
 
 	bool explicit_phase = true;   // the seed-chosen single calls; BUF_ERROR is never final there
+	bool prev_stalled = false;
 	auto one_call = [&](size_t in_n, size_t out_n, lzma_action a) -> bool {
 		// returns false when the session is over
+		// did this client hold back input it has, or offer no output space? (then no progress is its own doing)
+		bool stalled_now = (std::min(in_n, ss.in_left()) == 0 && ss.in_left() > 0) || out_n == 0;
+		bool stall_excuse = stalled_now || prev_stalled;
+		prev_stalled = stalled_now;
 		lzma_ret rr = ss.step(in_n, out_n, a);
 		if (!ret_is_public(rr)) { res.error = fmt("internal status %d leaked", (int)rr); res.error_cls = "internal-ret"; res.status = rr; return false; }
 		if (rr == LZMA_MEMLIMIT_ERROR) {
@@ -143,7 +148,7 @@ static void mt_decode(const Plan &plan, const Bytes &file, SimAlloc &al, MtRun &
 		}
 		if (is_notice(rr)) return true;
 		check_progress();
-		if (rr == LZMA_BUF_ERROR && (ss.in_left() > 0 || out_n == 0 || explicit_phase)) {
+		if (rr == LZMA_BUF_ERROR && (stall_excuse || explicit_phase)) {
 			// not fatal: this client stalled (offered no input or no space
 			// twice in a row) and now goes on
 			v.count("reach.buf_error_nonfatal");
